@@ -846,6 +846,9 @@ PARTIAL_EXACT = {"lstsq": [True, False], "svd": [True, False, True], "truncated_
                  "symeig_svd": [True, False, True], "eigh": [False, True], "svd_fun": [True, False, True]}
 EXACT_CALLEES_DEFAULT = {}   # the same under the assumption that the callee (and its callees) run with their boolean / string options at the DEFAULT values
 CALLEE_FLAGS = {}            # bare name -> {"flags": {option: default}, "first": position of the first such option among the parameters}
+WANTED_VARIANTS = set()  # (callee bare name, option, value): call sites of the default-options translations that pass exactly ONE option with a known non-default
+                         # value; extract_all(defaults_mode=True) translates the callee once more under that value ("<qual>@<option>=<value>") and the exact-dtype
+                         # certification treats it like any other function (baseline fixpoint, re-certified on every run)
 RET_INTS = {}           # qualified name -> (length of the returned tuple | None, index-valued positions) of the last extract_all
 INT_POSITIONS = {}      # bare name of a library function returning a tuple -> [length of the tuple, positions that hold index / count values (Python ints, integer
                         # arrays, lists of index tuples) in EVERY return statement]; loaded from the baseline, re-derived and compared on every run
@@ -1183,8 +1186,18 @@ class Translator:
             d = self.dotted(node.func)
             if d is None or d[0] not in MODULES or d[0] in self.defined:
                 return None        # a method call on an object: not resolved to a library function by its bare name
-        if self.defaults_mode and A in EXACT_CALLEES_DEFAULT and node is not None and self.default_call(A, node):
-            return EXACT_CALLEES_DEFAULT[A]
+        if self.defaults_mode and node is not None and A in CALLEE_FLAGS:
+            dev = self.deviations(A, node)
+            if dev == [] and A in EXACT_CALLEES_DEFAULT:
+                return _best_spec(EXACT_CALLEES_DEFAULT[A], EXACT_CALLEES.get(A))
+            if dev is not None and 1 <= len(dev) <= 3:
+                # a few options at known non-default values (or at a value not known here): the callee's certificate under THESE values, if it has one;
+                # the all-paths certificate holds for every value of every option, so whatever either of the two certifies is certified
+                dev = tuple(sorted(dev, key=repr))
+                WANTED_VARIANTS.add((A, dev))
+                key = A + variant_suffix(dev)
+                if key in EXACT_CALLEES_DEFAULT:
+                    return _best_spec(EXACT_CALLEES_DEFAULT[key], EXACT_CALLEES.get(A))
         return EXACT_CALLEES.get(A)
 
     def int_positions_of(self, node):
@@ -1202,17 +1215,24 @@ class Translator:
     def default_call(self, A, node):
         """the call leaves every boolean / string option of the callee at its default (not passed, passed as the same literal, or passed as an
         option of the caller that is itself at the same default)"""
+        return self.deviations(A, node) == []
+
+    def deviations(self, A, node):
+        """[(option, value)] for the boolean / string / None-valued options of the callee that the call sets to a KNOWN value other than the default (a literal,
+        or an option of the caller whose value is known in the default-options translation); None when the call cannot be analysed (an option passed
+        positionally, **kwargs, a computed value)"""
         info = CALLEE_FLAGS.get(A)
         if info is None:
-            return False
+            return None
         if info["first"] is not None and len(node.args) > info["first"]:
-            return False
+            return None
+        out = []
         for kw in node.keywords:
             if kw.arg is None:
                 d = self.dotted(kw.value.func) if isinstance(kw.value, ast.Call) else None
                 if d and d[-1] == "context":
                     continue          # **tl.context(x) passes dtype / device only
-                return False
+                return None
             if kw.arg in info["flags"]:
                 v = kw.value
                 if isinstance(v, ast.Constant):
@@ -1220,13 +1240,16 @@ class Translator:
                 elif isinstance(v, ast.Name) and v.id in self.flagvals:
                     val = self.flagvals[v.id]
                 else:
-                    return False
+                    out.append((kw.arg, Ellipsis))      # a value not known here: the callee's certificate must hold for EVERY value of this option
+                    continue
                 dflt = info["flags"][kw.arg]
                 same = type(val) is type(dflt) and val == dflt
                 # None and False are interchangeable for an option when the callee translates to the same program under both (falsy_eq)
                 if not same and not (val in (None, False) and dflt in (None, False) and kw.arg in info.get("falsy_eq", [])):
-                    return False
-        return True
+                    if not (val is None or isinstance(val, (bool, str))):
+                        return None
+                    out.append((kw.arg, val))
+        return out
 
     def call_name(self, n):
         d = self.dotted(n.func)
@@ -1859,6 +1882,9 @@ class Translator:
         if self.defaults_mode:
             self.flagvals = dict(self.flags)
             self.flagvals.update({k: v for k, v in self.flag_override.items() if k in self.flags})
+            for k, v in self.flag_override.items():
+                if v is Ellipsis:
+                    self.flagvals.pop(k, None)      # every value of this option: tests on it stay undecided (alternatives joined)
 
     def run(self):
         self.listvars = set()
@@ -2011,13 +2037,28 @@ def extract_functions(repo):
                             yield mod + "." + node.name + "." + m.name, m
 
 
+def variant_suffix(dev):
+    """dev: ((option, value), ...) sorted; value Ellipsis = every value of the option (its tests stay undecided in the callee's translation)"""
+    return "".join("@" + o + "=" + ("*" if v is Ellipsis else repr(v).replace(".", "_")) for o, v in dev)
+
+
+def base_qual(q):
+    """qualified name of the function a variant translation "<qual>@<option>=<value>" belongs to"""
+    return q.split("@", 1)[0]
+
+
 def extract_all(repo, defaults_mode=False):
-    """{qual: translation dict | {'error': ...}} for every function that returns at least one array-valued expression"""
+    """{qual: translation dict | {'error': ...}} for every function that returns at least one array-valued expression; with defaults_mode also the variant
+    translations "<qual>@<option>=<value>" that call sites ask for (WANTED_VARIANTS)"""
     import warnings
     out = {}
+    nodes = {}
+    if defaults_mode:
+        WANTED_VARIANTS.clear()
     with warnings.catch_warnings():
         warnings.simplefilter("ignore")
         for q, node in extract_functions(repo):
+            nodes[q] = node
             try:
                 r = translate(node, q, defaults_mode)
             except Unsupported as e:
@@ -2029,6 +2070,22 @@ def extract_all(repo, defaults_mode=False):
             RET_INTS[q] = (r.get("ret_len"), r.get("int_positions") or [])      # (also of the functions without array outputs: they may return only indices)
             if r["n_out"]:
                 out[q] = r
+        done = set()
+        while defaults_mode:
+            todo = sorted(WANTED_VARIANTS - done, key=repr)
+            if not todo or len(done) > 200:
+                break
+            for A, dev in todo:
+                done.add((A, dev))
+                for q, node in nodes.items():
+                    if q.rsplit(".", 1)[1] != A or q.rsplit(".", 2)[1][:1].isupper():
+                        continue
+                    try:
+                        r = translate(node, q, True, dict(dev))
+                    except (Unsupported, RecursionError):
+                        continue
+                    if r["n_out"]:
+                        out[q + variant_suffix(dev)] = r
     return out
 
 
@@ -2094,6 +2151,16 @@ def load_extract_baseline(what="levels"):
 
 # the documented exceptions of C18 at source level: the ONLY functions that may stay uncertified (level 0) in the baseline
 DOCUMENTED_F64 = {"tensorly.metrics.leverage_scores.leverage_score_dist"}
+
+
+def _best_spec(a, b):
+    """position-wise union of two certificates of the same function (True | [bool per tuple position] | None)"""
+    if a is True or b is True:
+        return True
+    if isinstance(a, list) and isinstance(b, list) and len(a) == len(b):
+        r = [x or y for x, y in zip(a, b)]
+        return True if all(r) else r
+    return a if a is not None else b
 
 
 def _meet(a, b):
@@ -2212,10 +2279,10 @@ def measure_exact(ex, levels, tag):
     xcases, xmeta = [], []
     for q in sorted(ex):
         r = ex[q]
-        if "error" in r or levels.get(q, 0) < 1:
+        if "error" in r or levels.get(base_qual(q), 0) < 1:
             continue
         for k in range(r["n_out"]):
-            xcases.append(f"(CExtX {len(xcases)}%nat {levels[q]}%nat {r['prog']} [{k}%nat])")
+            xcases.append(f"(CExtX {len(xcases)}%nat {levels[base_qual(q)]}%nat {r['prog']} [{k}%nat])")
             xmeta.append((q, k))
     xfailing, x_eval, xbroken = C.run_case_shards("C18", HEADER, "case", xcases, shard=60, tag=tag)
     assert not xbroken and x_eval == len(xcases), xbroken
@@ -3038,7 +3105,7 @@ def run(chk):
     dcases, dmeta = [], []
     for q in sorted(exd):
         r, b = exd[q], xdbase.get(q)
-        if "error" in r or not b or not b["outs"] or base.get(q, 0) < 1 or ".metrics." in q or b == xbase.get(q):
+        if "error" in r or not b or not b["outs"] or base.get(base_qual(q), 0) < 1 or ".metrics." in q or b == xbase.get(q):
             continue
         if b["n_out"] != r["n_out"]:
             chk.notes.append(f"function {q} (default options) now has {r['n_out']} array outputs (baseline {b['n_out']}): exact-dtype positions not judged")
@@ -3047,8 +3114,8 @@ def run(chk):
                                            "changed shape; regenerate corpus/C18/_extracted_levels.json (write_extract_baseline)", "detail": [b["n_out"], r["n_out"]]})
             continue
         outs = "[" + "; ".join(f"{k}%nat" for k in b["outs"]) + "]"
-        dcases.append(f"(CExtX {len(dcases)}%nat {base[q]}%nat {r['prog']} {outs})")
-        dmeta.append((q, base[q], b["outs"], r))
+        dcases.append(f"(CExtX {len(dcases)}%nat {base[base_qual(q)]}%nat {r['prog']} {outs})")
+        dmeta.append((q, base[base_qual(q)], b["outs"], r))
     dfailing, d_eval, dbroken = C.run_case_shards("C18", HEADER, "case", dcases, shard=40, tag="extxd")
     n_eval += d_eval
     chk.cov["traces_validated_against_impl"] = n_eval
